@@ -44,7 +44,8 @@ sympy expressions over symbols, exact rationals (float constants are converted e
     `orN(...)`, `andN(...)`, `xorN(...)`; variable shifts / funnel shifts are opaque atoms `op_*`;
   * float bit patterns: `bitcast float -> iN` (scalar or per lane of a vector) is the atom `bits_f32_i32(t)` that remembers t;
     `& signmask` gives `signbit32(t)`, `| bits(c)` (c >= 0 constant) on that gives, cast back, `copysign(c, t)`;
-    `& ~signmask` is `fabs(t)`, `^ signmask` is `-t`; casting an unmodified pattern back returns t;
+    `& ~signmask` is `fabs(t)`, `^ signmask` is `-t`; casting an unmodified pattern back returns t; the SSE scalar compares
+    (`cmp.ss`) give a mask, and `(mask & bits(u)) | (~mask & bits(v))` is read as `bits(Sel(cond, u, v))`;
   * extensions: each integer value carries flags *sx* / *ux* ("the polynomial's integer value IS the
     signed / unsigned value of the residue") and a magnitude bound.  An input symbol denotes its *signed*
     value (`summary(nonneg=[...])` declares inputs that are also non-negative).  `sext`/`zext` of a value
@@ -411,6 +412,7 @@ def F(name):
 
 
 Sel = sp.Function('Sel')
+ALLONES = sp.Symbol('allones_mask', real=True)      # the all-ones bit pattern of a compare mask held in a float lane
 BNot = sp.Function('BNot')
 BAnd = sp.Function('BAnd')
 BOr = sp.Function('BOr')
@@ -671,7 +673,30 @@ def fold_atom(name, args):
         return args[0]
     if name == 'fabs' and len(args) == 1 and args[0].is_Number:
         return abs(args[0])
+    m = re.match(r'^fpto([us])i(\d+)$', name)
+    if m and len(args) == 1 and args[0].is_Integer:
+        nb = int(m.group(2))
+        lo_, hi_ = (0, 2 ** nb) if m.group(1) == 'u' else (-2 ** (nb - 1), 2 ** (nb - 1))
+        if lo_ <= args[0] < hi_:
+            return args[0]
     return None
+
+
+def refold(e):
+    """re-evaluate listed functions whose arguments have become constants (after a substitution)"""
+    if not isinstance(e, sp.Basic) or not e.atoms(sp.core.function.AppliedUndef):
+        return e
+
+    def rb(x):
+        if x.is_Atom or not x.args:
+            return x
+        args = [rb(a) for a in x.args]
+        if isinstance(x, sp.core.function.AppliedUndef):
+            v = fold_atom(x.func.__name__, [norm(a) for a in args])
+            if v is not None:
+                return v
+        return x.func(*args)
+    return rb(e)
 
 
 def pick_literal(t):
@@ -1070,7 +1095,7 @@ def equal_under(guard, a, b, trig=False):
                     sub = {k: v.xreplace({z: val}) for k, v in sub.items()}
                     sub[z] = val
                     break
-    return is_zero(d.xreplace(sub), trig) if sub else False
+    return is_zero(refold(d.xreplace(sub)), trig) if sub else False
 
 
 def equal_guarded(A, B, assume=(), trig=False):
@@ -2110,6 +2135,10 @@ class Interp:
             if v.kind == 'f' and v.bits == ty[1]:
                 if v.term == 0:
                     return const_int(ty[1], 0)
+                if is_app(v.term, 'Sel') and v.term.args[1] == ALLONES and v.term.args[2] == 0:
+                    return IntV(ty[1], mk_sel(v.term.args[0], sp.Integer(-1), sp.Integer(0)), sx=True, org=('mask', v.term.args[0]))
+                if v.term == ALLONES:
+                    return const_int(ty[1], -1)
                 return IntV(ty[1], atom('bits_f%d_i%d' % (v.bits, ty[1]), v.term), org=('fbits', v.term))
             if v.kind == 'b' and ty[1] == 8:
                 return IntV(8, mk_sel(v.cond, sp.Integer(1), sp.Integer(0)), sx=True, ux=True, mag=1)
@@ -2377,6 +2406,35 @@ class Interp:
             m_ = (1 << N) - 1
             ca, cb = int(a) & m_, int(b) & m_
             return const_int(N, {'and': ca & cb, 'or': ca | cb, 'xor': ca ^ cb}[op])
+        if op in ('and', 'or', 'xor') and N in (32, 64):
+            # branch-free selection with a compare mask:  (mask & bits(u)) | (~mask & bits(v))  ==  bits(mask ? u : v)
+            def as_float(w):
+                if w.org is not None and w.org[0] == 'fbits':
+                    return w.org[1]
+                if w.org is not None and w.org[0] == 'copysign':
+                    return atom('copysign', w.org[1], w.org[2])
+                if w.term.is_Integer:
+                    return float_from_bits(int(w.term), N)
+                return None
+            for u, v in ((x, y), (y, x)):
+                if u.org is not None and u.org[0] == 'mask':
+                    c_ = u.org[1]
+                    if op == 'xor' and v.term.is_Integer and int(v.term) == -1:
+                        return IntV(N, mk_sel(c_, sp.Integer(0), sp.Integer(-1)), sx=True, org=('mask', neg(c_)))
+                    if op == 'and':
+                        fv = as_float(v)
+                        if fv is not None:
+                            t_ = mk_sel(c_, fv, sp.Integer(0))
+                            return IntV(N, atom('bits_f%d_i%d' % (N, N), t_), org=('fbits', t_))
+            if op == 'or' and x.org is not None and y.org is not None and x.org[0] == 'fbits' and y.org[0] == 'fbits':
+                ta, tb = x.org[1], y.org[1]
+                if is_app(ta, 'Sel') and is_app(tb, 'Sel') and ta.args[0] == tb.args[0]:
+                    if ta.args[2] == 0 and tb.args[1] == 0:
+                        t_ = mk_sel(ta.args[0], ta.args[1], tb.args[2])
+                        return IntV(N, atom('bits_f%d_i%d' % (N, N), t_), org=('fbits', t_))
+                    if ta.args[1] == 0 and tb.args[2] == 0:
+                        t_ = mk_sel(ta.args[0], tb.args[1], ta.args[2])
+                        return IntV(N, atom('bits_f%d_i%d' % (N, N), t_), org=('fbits', t_))
         if op in ('and', 'or', 'xor'):
             # sign-bit manipulation of a float's bit pattern: bits(t) & signmask, | bits(|c|), ^ signmask, & ~signmask
             for u, v in ((x, y), (y, x)):
@@ -2656,6 +2714,19 @@ class Interp:
                 c = flit('olt', a0.term, b0.term) if k == 'min' else flit('olt', b0.term, a0.term)
                 t = mk_sel(c, a0.term, b0.term)
             return True, AggV([FpV(a0.bits, t)] + v.elems[1:])
+        m = re.match(r'^llvm\.x86\.sse2?\.cmp\.s[sd]$', name)
+        if m and len(args) == 3:
+            # scalar compare producing an all-ones / all-zeros mask in lane 0 (upper lanes from the first operand)
+            a_, b_, imm = args
+            ic = self.as_int(imm).term if imm.kind in ('i', 'b') else None
+            if a_.kind != 'a' or b_.kind != 'a' or a_.elems[0].kind != 'f' or b_.elems[0].kind != 'f' or ic is None or not ic.is_Integer:
+                raise Undecided('%s with a non-constant predicate' % name)
+            pred = {0: 'oeq', 1: 'olt', 2: 'ole', 3: 'uno', 4: 'une', 5: 'uge', 6: 'ugt', 7: 'ord'}.get(int(ic) & 7)
+            if int(ic) & 7 in (3, 4, 5, 6, 7):
+                P.notes.append('no-NaN reading of %s predicate %d' % (name, int(ic)))
+            c_ = flit(pred, a_.elems[0].term, b_.elems[0].term)
+            bits_ = a_.elems[0].bits
+            return True, AggV([FpV(bits_, mk_sel(c_, ALLONES, sp.Integer(0)))] + list(a_.elems[1:]))
         m = re.match(r'^llvm\.x86\.avx512\.(rcp14|rsqrt14)\.s[sd]$', name)
         if m and len(args) == 4:
             # (a, b, src, mask): lane 0 = estimate of b[0] when mask bit 0 is set (else src[0]); upper lanes from a
